@@ -3,6 +3,7 @@ C13 — while trading is disabled nothing trades and market orders are rejected.
 -/
 import Bourse.Model.Ops
 import Bourse.Lemmas.Frame
+import Bourse.Lemmas.RefineStep
 
 namespace Bourse.Props.C13
 open Bourse
@@ -165,5 +166,48 @@ example :
     let b5 := (b4.step (.cap .bid 2 4 (some 9))).1
     b3.trades = [] ∧ b3.bidAsk = (10, 8) ∧ (b3.orders.map (·.order.status)) = [.active, .active, .rejected] ∧
       b5.trades = [{ t := 0, side := .ask, price := 8, vol := 2, active := 3, passive := 1 }] := by decide
+
+
+/-! ### The reference engine under the flag, and the refinement across toggles -/
+
+/-- Reference engine, trading disabled: an arriving or re-priced limit order is queued at its price
+behind every order with a better or equal price — no matching, the book may become crossed. -/
+theorem ref_disabled_limit_rests (s : Ref.RState) (agg : Order) (ht : s.trading = false)
+    (hf : agg.status ≠ .filled) :
+    Ref.enter s agg false =
+      (s.setQueue agg.side (Ref.enqueue s.orders agg.side (s.queue agg.side) agg.id agg.price), agg) := by
+  simp [Ref.enter, ht, hf]
+
+/-- Reference engine, trading disabled: a market order is rejected and the state is untouched. -/
+theorem ref_disabled_market_rejected (s : Ref.RState) (agg : Order) (ht : s.trading = false) :
+    Ref.enter s agg true = (s, { agg with status := .rejected, endt := s.t }) := by
+  simp [Ref.enter, ht]
+
+/-- Reference engine: switching the flag changes the flag and nothing else. -/
+theorem ref_toggle_only_flag (s : Ref.RState) (on : Bool) :
+    (Ref.step s (.trading on)).1 = { s with trading := on } := rfl
+
+/-- **Across toggles.** `Op` includes the trading switch, so the refinement theorem covers histories
+with the flag toggled at arbitrary points: the implementation's results and complete observations
+are the reference engine's — which, while the flag is off, rests limit orders and rejects market
+orders as above, and as soon as it is on again matches every subsequently arriving or re-priced order
+against the whole resting book (possibly crossed) by the usual rules. -/
+theorem toggled_histories_are_reference_histories (t0 tick : Nat) (trading : Bool) (ht : 0 < tick) (ops : List Op)
+    (hv : ∀ op ∈ ops, ValidOp op) (hnf : NoFault (Book.new t0 tick trading) ops) (n : Nat)
+    (hn : ∀ i, i < n → i * tick < P32) :
+    Book.trace n (Book.new t0 tick trading) ops = Ref.trace n (Ref.init t0 tick trading) ops := by
+  rw [← abs_new]
+  exact trace_refines (inv_new t0 tick trading ht) n hn ops hv hnf
+
+/-- Non-vacuity: a history that crosses the book while disabled and trades after re-enabling. -/
+example :
+    let ops : List Op := [.cap .ask 5 1 (some 10), .trading false, .cap .bid 5 2 (some 12), .cap .bid 1 3 none,
+      .trading true, .cap .ask 2 4 (some 11)]
+    let b := (Book.new 0 1 true).run ops
+    NoFault (Book.new 0 1 true) ops ∧ b.trades.length = 1 ∧
+      (b.orders.map (·.order.status)) = [.active, .active, .rejected, .filled] := by
+  refine ⟨?_, by decide, by decide⟩
+  simp only [NoFault, and_true]
+  decide
 
 end Bourse.Props.C13
